@@ -343,6 +343,11 @@ class Report:
         for k in self.known:
             lines.append(k)
         status = 0
+        for suffix in ("violation", "not_shown"):
+            try:
+                os.remove(os.path.join(VERIF, "build", "replay", "%s_%s.json" % (self.pid, suffix)))
+            except FileNotFoundError:
+                pass
         if self.violations:
             status = 1
             desc, replay = self.violations[0]
